@@ -297,6 +297,9 @@ def polar_ufunc(name, x):
         if same(x * COS_T, SIN_T):
             return Poly.sym('TH')
         return polar_opaque(name, x)
+    if name in ('real', 'imag') and isinstance(x, (Poly, Rat)) and not (isinstance(x, Poly) and x.is_const()):
+        # rho and theta stand for complex numbers: real / imaginary parts of a polar term stay symbolic
+        return polar_opaque(name, x)
     return NotImplemented
 
 
@@ -322,7 +325,18 @@ def numeric_value(v, point):
         if a in OPAQUE_ARGS:
             fname, arg = OPAQUE_ARGS[a]
             x = ev(arg)
-            return {'log': cmath.log, 'sqrt': cmath.sqrt, 'arctan': cmath.atan}[fname](x)
+            return {'log': cmath.log, 'sqrt': cmath.sqrt, 'arctan': cmath.atan, 'real': lambda z: complex(z.real),
+                    'imag': lambda z: complex(z.imag)}[fname](x)
+        from ..libmodels import OPAQUE
+        if a in OPAQUE:
+            import math
+            fname, args = OPAQUE[a]
+            xs = [ev(t) for t in args]
+            table = {'arctan2': lambda p, q: complex(math.atan2(p.real, q.real)), 'abs': lambda z: complex(abs(z)),
+                     'exp': cmath.exp, 'log': cmath.log, 'sqrt': cmath.sqrt, 'arctan': cmath.atan, 'cos': cmath.cos,
+                     'sin': cmath.sin, 'real': lambda z: complex(z.real), 'imag': lambda z: complex(z.imag)}
+            if fname in table:
+                return table[fname](*xs)
         raise AlgebraError('atom %s has no numeric value' % a)
 
     def evp(p):
@@ -345,7 +359,7 @@ def numeric_value(v, point):
 
 def numerically_different(got, want):
     try:
-        for point in ((1.37, 0.61), (0.83, 0.29)):
+        for point in ((1.37, 0.61), (0.83, 0.29), (1.21 + 0.17j, 0.47 - 0.11j)):
             for g, w in zip(got, want):
                 if abs(numeric_value(g, point) - numeric_value(w, point)) > 1e-6:
                     return True
